@@ -232,6 +232,7 @@ func (d *DeadlineChan[T]) SetDeadline(t time.Time) error {
 	if d.closed.Load() {
 		return io.EOF
 	}
+	verifhook.At("common.DeadlineChan.SetDeadline.afterClosedCheck")
 	return d.deadline.SetDeadline(t)
 }
 
@@ -241,6 +242,7 @@ func (d *DeadlineChan[T]) Cancel(err error) error {
 	if d.closed.Load() {
 		return io.EOF
 	}
+	verifhook.At("common.DeadlineChan.Cancel.afterClosedCheck")
 	d.deadline.Cancel(err)
 	return nil
 }
